@@ -39,16 +39,22 @@ fn prefix_profile() -> Profile {
     }
 }
 
-fn final_script(first: &ConnectSpec) -> ConnScript {
-    let so = crate::refcodec::SubOpts { qos: 1, no_local: false, rap: false, retain_handling: 0 };
+fn final_script(first: &ConnectSpec, keep_session: bool) -> ConnScript {
     ConnScript {
         connect: ConnectSpec {
             handshake: Handshake::Accept,
-            keep_session: true,
+            keep_session,
             props: ConnackProps { server_keepalive: None, assigned_id: None, extra: vec![], ..first.props.clone() },
             io: IoCfg::default(),
         },
-        steps: vec![
+        steps: final_steps(),
+        end: EndHow::Drop,
+    }
+}
+
+fn final_steps() -> Vec<Step> {
+    let so = crate::refcodec::SubOpts { qos: 1, no_local: false, rap: false, retain_handling: 0 };
+    vec![
             Step::SetBroker(BrokerMode::AutoAck),
             Step::PollIdle { max: DRAIN_MAX },
             // usability probe
@@ -58,17 +64,44 @@ fn final_script(first: &ConnectSpec) -> ConnScript {
             Step::PollIdle { max: 20 },
             Step::Subscribe { filters: vec![(TopicSpec::new(1, 0), so)], props: vec![], cancel: None },
             Step::PollIdle { max: 20 },
-        ],
-        end: EndHow::Drop,
-    }
+            // the whole send window / all slots must be available again
+            Step::SetBroker(BrokerMode::Scripted),
+            Step::Publish(PubSpec::simple(1, 1, 0, 10)),
+            Step::Publish(PubSpec::simple(2, 1, 0, 11)),
+            Step::Publish(PubSpec::simple(1, 1, 0, 12)),
+            Step::Publish(PubSpec::simple(1, 1, 0, 13)),
+            Step::Publish(PubSpec::simple(2, 1, 0, 14)),
+            Step::Publish(PubSpec::simple(1, 1, 0, 15)),
+            Step::Publish(PubSpec::simple(1, 1, 0, 16)),
+            Step::Publish(PubSpec::simple(1, 1, 0, 17)),
+            Step::Publish(PubSpec::simple(1, 1, 0, 18)),
+            Step::Publish(PubSpec::simple(1, 1, 0, 19)),
+            Step::SetBroker(BrokerMode::AutoAck),
+            Step::PollIdle { max: 60 },
+    ]
 }
 
 pub fn strategy() -> BoxedStrategy<Case> {
     let p = prefix_profile();
-    cgen::case(&p)
-        .prop_map(|mut case| {
-            let fin = final_script(&case.conns[0].connect);
-            case.conns.push(fin);
+    (cgen::case(&p), 0u8..10, 0u8..10)
+        .prop_map(|(mut case, k, same)| {
+            // the connection counts as "not lost" only if nothing in its script ends it or leaves
+            // a fault armed on the transport
+            let last_ok = case.conns.last().is_some_and(|c| {
+                c.connect.handshake == Handshake::Accept
+                    && !c.steps.iter().any(|s| matches!(s, Step::Eof | Step::FaultAt { .. } | Step::Disconnect { .. } | Step::Broker(BrokerAct::Disconnect { .. })))
+            });
+            if same < 3 && last_ok {
+                // the connection was not lost: the benign continuation happens on it
+                let last = case.conns.last_mut().unwrap();
+                last.steps.push(Step::SetIo(IoCfg::default()));
+                last.steps.extend(final_steps());
+                last.end = EndHow::Drop;
+            } else {
+                // mostly the broker still has the session; sometimes it answers with a fresh one
+                let fin = final_script(&case.conns[0].connect, k < 7);
+                case.conns.push(fin);
+            }
             case
         })
         .boxed()
@@ -84,14 +117,31 @@ pub struct Out {
 }
 
 fn twin_of(case: &Case) -> Case {
-    Case { cfg: case.cfg.clone(), broker: BrokerMode::Scripted, conns: vec![case.conns.last().unwrap().clone()] }
+    let mut fin = final_script(&case.conns[0].connect, true);
+    fin.connect.props = case.conns.last().unwrap().connect.props.clone();
+    fin.connect.props.server_keepalive = None;
+    fin.connect.props.assigned_id = None;
+    Case { cfg: case.cfg.clone(), broker: BrokerMode::Scripted, conns: vec![fin] }
 }
 
-fn probe_results(trace: &Trace, conn_idx: usize) -> Vec<(OpKind, OpRes)> {
+/// (connection index, index of the first continuation step) - the marker is the SetBroker step
+/// followed by the long drain.
+fn continuation_at(case: &Case) -> (usize, usize) {
+    for (ci, cs) in case.conns.iter().enumerate().rev() {
+        for si in 0..cs.steps.len().saturating_sub(1) {
+            if cs.steps[si] == Step::SetBroker(BrokerMode::AutoAck) && cs.steps[si + 1] == (Step::PollIdle { max: DRAIN_MAX }) {
+                return (ci, si);
+            }
+        }
+    }
+    (case.conns.len() - 1, 0)
+}
+
+fn probe_results(trace: &Trace, conn_idx: usize, step0: usize) -> Vec<(OpKind, OpRes)> {
     trace
         .ops
         .iter()
-        .filter(|o| o.step.0 == conn_idx && o.step.1 >= 2 && !matches!(o.kind, OpKind::Poll))
+        .filter(|o| o.step.0 == conn_idx && o.step.1 >= step0 + 2 && !matches!(o.kind, OpKind::Poll))
         .map(|o| {
             let r = match &o.res {
                 OpRes::Handle(_) => OpRes::Handle(0),
@@ -108,7 +158,8 @@ pub fn eval(case: &Case) -> Out {
     let (model_viol, stats) = Model::run(case, &view);
     let mut v: Vec<Violation> = Vec::new();
     let mut classes: Vec<&'static str> = Vec::new();
-    let fin_idx = case.conns.len() - 1;
+    let (fin_idx, fin_step0) = continuation_at(case);
+    let same_conn = fin_step0 > 0;
     let fin_tr = trace.conns.len().checked_sub(1);
     let push = |v: &mut Vec<Violation>, prop: &'static str, sig: String, detail: String| {
         if !v.iter().any(|x| x.prop == prop && x.sig == sig) {
@@ -137,6 +188,25 @@ pub fn eval(case: &Case) -> Out {
         return Out { violations: v, stats, c12_nontrivial: false, c16_nontrivial: false, watchdog: trace.watchdog, classes };
     };
     let fin_res = trace.conns[fin_tr].1;
+    if same_conn {
+        classes.push("continuation-on-the-same-connection");
+        // only meaningful when the connection is still alive when the continuation starts
+        let alive = fin_res.is_ok() && {
+            let first_op = trace.ops.iter().position(|o| o.step.0 == fin_idx && o.step.1 >= fin_step0);
+            let mut last = None;
+            for e in &trace.events {
+                match e {
+                    Event::Sample(s) => last = s.connected,
+                    Event::OpStart { op, .. } if Some(*op) == first_op => break,
+                    _ => {}
+                }
+            }
+            last == Some(true)
+        };
+        if !alive {
+            return Out { violations: v, stats, c12_nontrivial: false, c16_nontrivial: false, watchdog: trace.watchdog, classes };
+        }
+    }
     // differential twin: a brand-new session with the same configuration and the same CONNACK
     let twin = run_case(&twin_of(case));
     let twin_ok = twin.conns.first().is_some_and(|c| c.1.is_ok());
@@ -144,9 +214,9 @@ pub fn eval(case: &Case) -> Out {
         classes.push("configuration-can-never-connect");
         return Out { violations: v, stats, c12_nontrivial: false, c16_nontrivial: false, watchdog: trace.watchdog, classes };
     }
-    let inflight_before = stats.inflight_at_conn.iter().find(|x| x.0 == fin_tr).map(|x| x.1 + x.2);
+    let inflight_before = if same_conn { Some(8) } else { stats.inflight_at_conn.iter().find(|x| x.0 == fin_tr).map(|x| x.1 + x.2) };
     // what ended the previous connection
-    let prev_failed = fin_tr > 0 && {
+    let prev_failed = !same_conn && fin_tr > 0 && {
         let prev = fin_tr - 1;
         !trace.conns[prev].1.is_ok()
             || trace.ops.iter().any(|o| o.tr == prev && matches!(o.res, OpRes::Err(ErrKind::Transport | ErrKind::Disconnected | ErrKind::InvalidPacket) | OpRes::Cancelled { .. }))
@@ -181,28 +251,31 @@ pub fn eval(case: &Case) -> Out {
     // ---- C12: the new transport starts with one complete CONNECT and parses cleanly
     let tv = &view.trs[fin_tr];
     let first_is_connect = tv.pkts.first().is_some_and(|p| matches!(view.out[*p].packet, Packet::Connect(_)));
-    if !first_is_connect || tv.fatal.is_some() {
+    if !same_conn && (!first_is_connect || tv.fatal.is_some()) {
         push(&mut v, "C12", "C12/new-transport-not-clean".into(), format!("the new transport's byte stream does not start with a complete CONNECT / does not parse: {:?}", tv.fatal));
     }
-    for m in &model_viol {
-        // anything the history model objects to on the final transport concerns usability
-        if m.detail.contains(&format!("transport {fin_tr}")) && matches!(m.prop, "C01" | "C04" | "C05") && !m.sig.contains("fixed-header-flags") {
-            push(&mut v, "C12", format!("C12/final-connection/{}", m.sig), m.detail.clone());
+    if !same_conn {
+        for m in &model_viol {
+            // anything the history model objects to on the final transport concerns usability
+            if m.detail.contains(&format!("transport {fin_tr}")) && matches!(m.prop, "C01" | "C04" | "C05") && !m.sig.contains("fixed-header-flags") {
+                push(&mut v, "C12", format!("C12/final-connection/{}", m.sig), m.detail.clone());
+            }
         }
     }
     // usability probe: identical results to a brand-new session
-    let mine = probe_results(&trace, fin_idx);
-    let theirs = probe_results(&twin, 0);
+    let mine = probe_results(&trace, fin_idx, fin_step0);
+    let theirs = probe_results(&twin, 0, 0);
     if mine != theirs {
-        push(&mut v, "C12", "C12/session-not-fully-usable".into(), format!("after draining, the probe (inbound QoS 1 delivery, QoS 1 publish, subscribe) gave {mine:?}; a brand-new session gives {theirs:?}"));
+        let prop = if same_conn { "C16" } else { "C12" };
+        push(&mut v, prop, format!("{prop}/session-not-fully-usable"), format!("after draining, the probe (inbound QoS 1 delivery, QoS 1 publish, subscribe, full send window) gave {mine:?}; a brand-new session gives {theirs:?}"));
     }
     // ---- C16: bounded progress to quiescence
-    let drain_polls = trace.ops.iter().filter(|o| o.step == (fin_idx, 1)).count();
-    let drain_blocked = trace.ops.iter().filter(|o| o.step == (fin_idx, 1)).last().is_some_and(|o| matches!(o.res, OpRes::Blocked { .. }));
+    let drain_polls = trace.ops.iter().filter(|o| o.step == (fin_idx, fin_step0 + 1)).count();
+    let drain_blocked = trace.ops.iter().filter(|o| o.step == (fin_idx, fin_step0 + 1)).last().is_some_and(|o| matches!(o.res, OpRes::Blocked { .. }));
     let n = inflight_before.unwrap_or(0) as usize;
     let bound = 4 * (n + 8) + 10;
     if !drain_blocked {
-        let last = trace.ops.iter().filter(|o| o.step == (fin_idx, 1)).last().map(|o| o.res.clone());
+        let last = trace.ops.iter().filter(|o| o.step == (fin_idx, fin_step0 + 1)).last().map(|o| o.res.clone());
         push(&mut v, "C16", "C16/not-idle-within-bound".into(), format!("{drain_polls} poll() calls with a responsive broker did not bring the session to an idle wait (last result {last:?})"));
     } else if drain_polls > bound {
         push(&mut v, "C16", "C16/too-many-steps".into(), format!("{drain_polls} poll() calls were needed for {n} pending items (bound {bound})"));
